@@ -12,7 +12,7 @@
 #define RLBOX_MEASURE_TRANSITION_TIMES
 #include <string>
 template<typename K>
-void calls_hook(bool in, K kind, const char* name, const void* ptr, void* state);
+void calls_hook(bool in, K kind, const char* name, const void* ptr, void*& state);
 #define RLBOX_TRANSITION_ACTION_IN(kind, name, ptr, state) calls_hook(true, kind, name, ptr, state)
 #define RLBOX_TRANSITION_ACTION_OUT(kind, name, ptr, state) calls_hook(false, kind, name, ptr, state)
 
@@ -250,7 +250,7 @@ static const rlbox::verif_lib g_lib1 = {
 
 // ---- hooks ----
 template<typename K>
-void calls_hook(bool in, K kind, const char* name, const void* ptr, void* state)
+void calls_hook(bool in, K kind, const char* name, const void* ptr, void*& state)
 {
   bool is_invoke = (kind == rlbox::rlbox_transition::INVOKE);
   long st = long(reinterpret_cast<uintptr_t>(state)) - 100;
@@ -262,6 +262,9 @@ void calls_hook(bool in, K kind, const char* name, const void* ptr, void* state)
     if (name != nullptr) ident += "!name";
   }
   logev(std::string(in ? "I:" : "O:") + (is_invoke ? "i:" : "c:") + ident + ":" + std::to_string(st));
+  // the hook is handed the per-sandbox state itself (the macro argument is the member): it advances it, so that the
+  // next notification of the same sandbox must observe the advanced value
+  state = reinterpret_cast<void*>(reinterpret_cast<uintptr_t>(state) + 1000);
 }
 
 // ---- registration ----
